@@ -38,6 +38,10 @@ def gen(tier, seed):
                 continue
             yield {'mesh': mesh, 'start_index': si, 'fill': fill, 'transposed': tr, 'tables': list(tables),
                    'edge_dimension': edge_dimension, 'coords_as': coords_as, 'edge_order': edge_order}
+    for mesh in meshes:     # tables with their own index base
+        for fill in ('auto', 'nan'):
+            yield {'mesh': mesh, 'start_index': 1, 'fill': fill, 'transposed': False, 'tables': ['edge_node', 'face_edge', 'edge_face', 'face_face'], 'edge_dimension': 'auto',
+                   'coords_as': 'vars', 'edge_order': 'reverse', 'mixed_base': True}
     for mesh in meshes:     # other spellings
         yield {'mesh': mesh, 'start_index': None, 'fill': 'int_fill', 'transposed': False, 'tables': ['edge_node'], 'edge_dimension': 'auto',
                'coords_as': 'vars', 'edge_order': 'reverse', 'two_name': 'nv'}
@@ -88,6 +92,23 @@ def build(inp):
             kw[k] = inp[k]
     ds = datasets.ugrid(m['ny'], m['nx'], split=tuple(map(tuple, m['split'])), merge=tuple(map(tuple, m['merge'])), tables=tuple(inp['tables']),
                         face_coords=True, **kw)
+    if inp.get('mixed_base'):
+        # every table carries its own index base: the optional tables are rewritten zero-based without a start_index attribute
+        # while the face-node table stays one-based (or the other way round)
+        for name in ('Mesh2_edge_nodes', 'Mesh2_face_edges', 'Mesh2_edge_faces', 'Mesh2_face_links'):
+            if name in ds.variables:
+                v = ds[name]
+                si = v.attrs.get('start_index', 0) or 0
+                vals = v.values
+                if vals.dtype.kind == 'f':
+                    new = vals - si
+                else:
+                    fv = v.attrs.get('_FillValue')
+                    new = numpy.where(vals == fv, vals, vals - si) if fv is not None else vals - si
+                attrs = {k: a for k, a in v.attrs.items() if k != 'start_index'}
+                enc = dict(v.encoding)
+                ds[name] = (v.dims, new.astype(vals.dtype), attrs)
+                ds[name].encoding.update(enc)
     node_x, node_y, faces = datasets.quad_tri_mesh(m['ny'], m['nx'], split=tuple(map(tuple, m['split'])), merge=tuple(map(tuple, m['merge'])))
     return ds, faces, node_x, node_y
 
